@@ -231,7 +231,7 @@ def rule_lang_slot_eval(chk, prefix="C06.lang"):
         r = I.Interp(f, max_depth=6, extern=ext).apply(fn, [gv, ctx])
         flat = lambda o: o.fields["0"] if isinstance(o, I.Enum) and o.variant == "Some" else None
         return (isinstance(r, I.Enum) and r.variant == "Ok", [(flat(g.fields["lang_slot"].fields["set"]), flat(g.fields["lang_slot"].fields["index"])) for g in reg])
-    anns = [None, (3, None), (None, 2), (4, 1)]
+    anns = [None, (3, None), (None, 2), (4, 1), (5, 0), (None, 0)]       # (an explicit space0 is an explicit group: it is not the pipeline's default group)
     show = lambda a: "" if a is None else " : register(%s)" % ", ".join(x for x in ("t%d" % a[0] if a[0] is not None else None, "space%d" % a[1] if a[1] is not None else None) if x)
     bad = {}
     n = 0
